@@ -21,7 +21,7 @@ ASSUMPTIONS = ['tensor layout (condition, channel, repetition) as returned by Da
                'the channel axis is axis 1 in every layout handled by _check_demean']
 FLOOR = 40
 ANALYSED_FLOORS = {'order_obligations': 1}   # means[inverse] in cov_from_unbalanced
-RULE_FLOORS = {'POLY': 3, 'PAR': 6, 'FWD': 9}
+RULE_FLOORS = {'POLY': 3, 'PAR': 3, 'FWD': 3}   # one per estimator: collapsing the three list-arm calls into one is a legitimate refactoring
 
 N = 'data.noise.'
 
@@ -200,14 +200,30 @@ def list_element(ctx, obs, q, rule='FWD-list'):
                           f'`{norm(c.node)[:80]}` drops `{p}`', '', where(prog, f, c.node))
         if 'dof' in b:
             e = b['dof'][0]
-            ok = (isinstance(e, ast.Name) and e.id == 'dof') or (isinstance(e, ast.Subscript) and isinstance(e.value, ast.Name)
-                                                                 and e.value.id == 'dof')
+            inl_d = Inliner(r, None, ('dof',))
+
+            def _alts_d(x):
+                if isinstance(x, ast.Call) and isinstance(x.func, ast.Name) and x.func.id == 'PHI':
+                    return [z for a_ in x.args for z in _alts_d(a_)]
+                if isinstance(x, ast.IfExp):
+                    return _alts_d(x.body) + _alts_d(x.orelse)
+                return [x]
+            alts = _alts_d(inl_d.inline(e))
+
+            def _is_dof(x):
+                if isinstance(x, ast.Name) and x.id == 'SRC0':
+                    return True
+                return (isinstance(x, ast.Subscript) and isinstance(x.value, ast.Name) and x.value.id == 'SRC0') or \
+                    (isinstance(x, ast.Call) and isinstance(x.func, ast.Name) and x.func.id == 'ELEM' and x.args
+                     and isinstance(x.args[0], ast.Name) and x.args[0].id == 'SRC0')
+            ok = bool(alts) and all(_is_dof(a_) for a_ in alts)
             obs.check(ok, rule, q, f'per-element call #{c.ordinal} uses the caller\'s dof (scalar or this element\'s entry)',
-                      f'dof is `{norm(e)}`', '', where(prog, f, c.node))
-            if isinstance(e, ast.Subscript):
-                idx_src = {t for t in (c.arg('dof') or frozenset()) if t.startswith('ITER:')}
-                obs.check(bool(idx_src), rule, q, 'a dof list is indexed by the position of the element',
-                          f'`{norm(e)}` is not indexed by the loop counter', '', where(prog, f, c.node))
+                      f'dof is `{norm(e)}` = `{ast.unparse(inl_d.inline(e))[:80]}`', '', where(prog, f, c.node))
+            for a_ in alts:
+                if isinstance(a_, ast.Subscript):
+                    idx_src = {t for t in (c.arg('dof') or frozenset()) if t.startswith('ITER:')}
+                    obs.check(bool(idx_src), rule, q, 'a dof list is indexed by the position of the element',
+                              f'`{norm(e)}` is not indexed by the loop counter', '', where(prog, f, c.node))
     if n < 3:
         obs.unk(rule, q, 'per-element calls', f'{n} found')
 
